@@ -172,7 +172,7 @@ func modelSelfCheck(x *mon.Ctx) {
 		long[i] = byte(i*7 + 3)
 	}
 	for _, tag := range []int{4, 8, 16} {
-		for nbits := 0; nbits <= 700; nbits++ {
+		for nbits := 0; nbits <= 300; nbits++ {
 			if tag != 4 && tailWindowClass(tag, nbits) {
 				continue
 			}
@@ -489,7 +489,7 @@ func eiaBytesCase(c *mon.Case, m *macSpec, h zuc.EIA, msg []byte, n, extra int, 
 
 func eiaHist(x *mon.Ctx) {
 	setup(x)
-	walks := raceScale(x, x.Scale(1500, 12000))
+	walks := raceScale(x, x.Scale(1000, 12000))
 	for ai := range macAlgs {
 		for i := 0; i < walks; i++ {
 			c := x.Begin("hist alg=%s-%d walk %d: random history over Write/Sum/Finish/Reset on one MAC object", macAlgs[ai].alg, 8*macAlgs[ai].tag, i)
